@@ -44,6 +44,7 @@ import (
 	"bmvh/common"
 	"bmvh/vlog"
 
+	"github.com/BondMachineHQ/BondMachine/pkg/bmline"
 	"github.com/BondMachineHQ/BondMachine/pkg/bmreqs"
 	"github.com/BondMachineHQ/BondMachine/pkg/bondmachine"
 	"github.com/BondMachineHQ/BondMachine/pkg/procbuilder"
@@ -96,6 +97,25 @@ type opDelay struct {
 	d  int
 }
 
+// genOpts: Config fields that change what Write_verilog_main / the per-module generators emit
+// without changing the machine: bondmachine.Config.CommentedVerilog (-comment-verilog; carried to
+// procbuilder.Config.Commented_verilog by ProcbuilderConfig) and the hardware optimisation
+// OnlyDestRegs (inc/dec/rset/jz keep only the register arms recorded under `destregs`).
+type genOpts struct {
+	commented bool
+	onlyDest  bool
+}
+
+func (o genOpts) line() string {
+	b := func(x bool) int {
+		if x {
+			return 1
+		}
+		return 0
+	}
+	return fmt.Sprintf("O commented=%d onlydestregs=%d", b(o.commented), b(o.onlyDest))
+}
+
 type caseSpec struct {
 	rsize int
 	procs []procSpec
@@ -104,6 +124,7 @@ type caseSpec struct {
 	ticks int
 	stims []stim // replay: explicit stimulus
 	hasE  bool   // replay: an E line was given
+	opt   genOpts // generator options that change the emitted text, not the machine
 	delays [][]opDelay // simulated opcode latencies: one extra simulator run per assignment (hdl / dly modes)
 }
 
@@ -393,6 +414,7 @@ func genCase(r *common.Rng, ticks int, full bool) *caseSpec {
 	}
 	// environment
 	c.env.clocks = 3 * ticks / 2
+	c.opt = genOpts{commented: r.Chance(1, 3), onlyDest: r.Chance(1, 4)}
 	// simulated opcode latencies for a second run of the simulator (two thirds of the machines, all
 	// those built with fan-out to several processors): the
 	// property holds "regardless of how many clock cycles either takes"
@@ -746,11 +768,16 @@ func addImplicitNets(m *vlog.Module) []string {
 	return added
 }
 
-func fileSet(bm *bondmachine.Bondmachine, withProcs bool) (map[string]string, error) {
+func fileSet(bm *bondmachine.Bondmachine, withProcs bool, c *caseSpec) (map[string]string, error) {
 	conf := new(bondmachine.Config)
 	rg := bmreqs.NewReqRoot()
 	defer rg.Close()
 	conf.ReqRoot = rg
+	conf.CommentedVerilog = c.opt.commented
+	if c.opt.onlyDest && withProcs {
+		conf.HwOptimizations = procbuilder.SetHwOptimization(conf.HwOptimizations, procbuilder.HwOptimizations(procbuilder.OnlyDestRegs))
+		rg.Requirement(bmreqs.ReqRequest{Node: "/", T: bmreqs.ObjectSet, Name: "bm", Value: "cps", Op: bmreqs.OpAdd})
+	}
 	files := map[string]string{}
 	if withProcs {
 		pConf := conf.ProcbuilderConfig()
@@ -760,6 +787,35 @@ func fileSet(bm *bondmachine.Bondmachine, withProcs bool) (map[string]string, er
 			pConf.Runinfo = ri
 			dom := bm.Domains[domID]
 			dom.Arch.Shared_constraints = ""
+			dom.Arch.Tag = strconv.Itoa(i)
+			if c.opt.onlyDest && i < len(c.procs) {
+				// record the destination registers the way basm does: each opcode's own
+				// HLAssemblerNormalize on the program's lines (as harness/cmd/c01 does)
+				node := "/bm:cps/id:" + strconv.Itoa(i)
+				rg.Requirement(bmreqs.ReqRequest{Node: "/bm:cps", T: bmreqs.ObjectSet, Name: "id", Value: strconv.Itoa(i), Op: bmreqs.OpAdd})
+				for _, l := range c.procs[i].src {
+					f := strings.Fields(l)
+					if len(f) == 0 {
+						continue
+					}
+					bl := new(bmline.BasmLine)
+					bl.Operation = new(bmline.BasmElement)
+					bl.Operation.SetValue(f[0])
+					for _, a := range f[1:] {
+						e := new(bmline.BasmElement)
+						e.SetValue(a)
+						bl.Elements = append(bl.Elements, e)
+					}
+					for _, op := range dom.Arch.Op {
+						if op.Op_get_name() == f[0] {
+							func() {
+								defer func() { recover() }()
+								op.HLAssemblerNormalize(&dom.Arch, rg, node, bl)
+							}()
+						}
+					}
+				}
+			}
 			an := "a" + strconv.Itoa(i)
 			names := map[string]string{"processor": "p" + strconv.Itoa(i), "rom": "p" + strconv.Itoa(i) + "rom", "ram": "p" + strconv.Itoa(i) + "ram"}
 			dom.Conproc.CpID = uint32(i)
@@ -772,9 +828,9 @@ func fileSet(bm *bondmachine.Bondmachine, withProcs bool) (map[string]string, er
 	return files, nil
 }
 
-func emitHDL(bm *bondmachine.Bondmachine) {
+func emitHDL(bm *bondmachine.Bondmachine, c *caseSpec) {
 	res := common.Guard(func() string {
-		files, err := fileSet(bm, true)
+		files, err := fileSet(bm, true, c)
 		if err != nil {
 			return "H err " + err.Error()
 		}
@@ -1038,6 +1094,7 @@ func runCase(r *common.Rng, c *caseSpec, mode string) {
 			return "G err " + err.Error()
 		}
 		out.Line("%s", graphLine(bm))
+		out.Line("%s", c.opt.line())
 		for _, e := range c.edits {
 			out.Line("%s", editLine(c, e))
 		}
@@ -1051,7 +1108,7 @@ func runCase(r *common.Rng, c *caseSpec, mode string) {
 			}
 		}
 		if mode == "net" {
-			files, _ := fileSet(bm, false)
+			files, _ := fileSet(bm, false, c)
 			d, err := vlog.ParseFiles(files)
 			if err != nil {
 				out.Line("NV err %s", strings.ReplaceAll(err.Error(), "\n", " "))
@@ -1061,7 +1118,7 @@ func runCase(r *common.Rng, c *caseSpec, mode string) {
 			return ""
 		}
 		if mode == "hdl" {
-			emitHDL(bm)
+			emitHDL(bm, c)
 		}
 		if !c.env.noise && c.stims == nil {
 			out.Line("%s", envLine(&c.env))
@@ -1320,6 +1377,17 @@ func replay(path string, mode string) {
 			if c != nil {
 				c.ticks = atoi(fs[1])
 			}
+		case "O":
+			if c != nil {
+				for _, kv := range fs[1:] {
+					switch kv {
+					case "commented=1":
+						c.opt.commented = true
+					case "onlydestregs=1":
+						c.opt.onlyDest = true
+					}
+				}
+			}
 		case "DL":
 			if c != nil && len(fs) > 1 {
 				var set []opDelay
@@ -1344,6 +1412,7 @@ func replay(path string, mode string) {
 // inputs/outputs, with every assignment sink -> (no driver | any driver); shapes with more than
 // `limit` assignments are sampled
 func netExhaustive(r *common.Rng, limit int) {
+	nx := 0
 	type pp struct{ n, m int }
 	var shapes [][]pp
 	for n0 := 0; n0 <= 2; n0++ {
@@ -1396,6 +1465,8 @@ func netExhaustive(r *common.Rng, limit int) {
 				}
 				emit := func(choice []int) {
 					c := &caseSpec{rsize: 8, procs: c0.procs}
+					nx++
+					c.opt.commented = nx%2 == 0
 					c.edits = append(c.edits, c0.edits...)
 					for i, ch := range choice {
 						if ch > 0 {
@@ -1468,7 +1539,7 @@ func main() {
 					fmt.Println("S", p, l)
 				}
 			}
-			files, _ := fileSet(bm, false)
+			files, _ := fileSet(bm, false, c)
 			fmt.Println(files["bondmachine.v"])
 		case "sim":
 			c.env.noise = r.Chance(1, 3)
